@@ -5,6 +5,7 @@ func init() {
 		ID:    "C20",
 		Title: "Custom functions: unique registration, faithful argument/result conversion",
 		Rules: []string{
+			"R-REGISTRY (current registry): the evaluation context of a render is built in the call, from the package's registry as it is then",
 			"R-DOTKW: the parse function registered for the dot, by cases on the abstract parser: an identifier and every keyword token is a name after the dot; a non-name is an error",
 			"R-OPTABLE (singletons): no object is compared by identity with the TRUE / FALSE / NIL singletons",
 			"R-REGISTRY (context): every construction of an evaluation context stores its CustomFunc and Config before it escapes",
@@ -16,9 +17,10 @@ func init() {
 		NotDecided:  "TODO",
 		Assumptions: trustedBase,
 		Run: func(m *Model, s *Sink) {
-			m.RunDotKeywords(s, "R-DOTKW")    // a custom function registered under a keyword name can be called
-			m.RunSingletons(s, "R-OPTABLE")   // a boolean receiver is converted by its value, not by identity with TRUE
-			m.RunCtxComplete(s, "R-REGISTRY") // every evaluation context carries the registry
+			m.RunFreshContext(s, "R-REGISTRY") // a function registered after a first rendering is callable in the next one
+			m.RunDotKeywords(s, "R-DOTKW")     // a custom function registered under a keyword name can be called
+			m.RunSingletons(s, "R-OPTABLE")    // a boolean receiver is converted by its value, not by identity with TRUE
+			m.RunCtxComplete(s, "R-REGISTRY")  // every evaluation context carries the registry
 			m.RunRegistry(s, "R-REGISTRY")
 			m.RunHasCustomCases(s, "R-REGISTRY")
 			m.RunValSiblings(s, "R-VAL")
